@@ -60,6 +60,10 @@ func ValidateTOTP(secret, code string, t time.Time, param *Param) (bool, error) 
 		param = &_def
 	}
 
+	if param.Skew > 10 {
+		return false, ErrInvalidSkew
+	}
+
 	secretBuf, err := DecodeSecret(secret)
 	if err != nil {
 		return false, err
